@@ -422,6 +422,10 @@ Section Step.
                             | Some a, Some d => Some (a * 10 + d)
                             | _, _ => None end) s (Some 0).
 
+  (* Server.pwd: every double quote (code point 34) of str(cwd) is doubled *)
+  Definition dbl_quote (t : text) : text :=
+    flat_map (fun c => if c =? 34 then [34; 34] else [c]) t.
+
   (* ---- handler bodies by name; [self] runs another handler (delegation) *)
   Definition body (self : string -> text -> dataact -> bool -> world -> result)
              (name : string) (arg : text) (d : dataact) (appe : bool) (w : world) : result :=
@@ -454,7 +458,7 @@ Section Step.
            end
     else if String.eqb name "quit" then (w, mk_out [code "221"], false)
     else if String.eqb name "pwd" then
-      (w, {| o_codes := [code "257"]; o_info := [34] ++ path_str (s_cwd s) ++ [34];
+      (w, {| o_codes := [code "257"]; o_info := [34] ++ dbl_quote (path_str (s_cwd s)) ++ [34];
              o_bytes := None; o_listing := None |}, true)
     else if String.eqb name "cwd" then (set_sess w (set_cwd s p), mk_out [code "250"], true)
     else if String.eqb name "cdup" then self "cwd"%string (path_str (removelast (s_cwd s))) d false w
